@@ -20,6 +20,19 @@ Definition is_token (relaxed : bool) (item : bytes) (v : Z) : Prop :=
     forallb (ows_before relaxed) w = true /\ ds <> [] /\ forallb c_isdigit ds = true /\
     forallb (ows_after relaxed) t = true /\ dec_val ds = v /\ (v < two63)%Z.
 
+(* reading a field value as RFC 9110 lists do: split at commas, trim white space, ignore empty elements;
+   a value without a comma is one occurrence *)
+Fixpoint split_on (d : N) (l : bytes) : list bytes :=
+  match l with
+  | [] => [[]]
+  | c :: r => if c =? d then [] :: split_on d r
+              else match split_on d r with p :: ps => (c :: p) :: ps | [] => [[c]] end
+  end.
+Definition blank (p : bytes) : bool := forallb c_isspace p.
+Definition trim (p : bytes) : bytes := rtrim (ltrim p).
+Definition occurrences (f : bytes) : list bytes :=
+  if existsb (N.eqb 44) f then map trim (filter (fun p => negb (blank p)) (split_on 44 f)) else [f].
+
 (* the interpreter "uses v": sawGood && !sawBad && value = v *)
 Definition uses (st : clst) (v : Z) : Prop :=
   cl_sawBad st = false /\ cl_sawGood st = true /\ cl_value st = v.
@@ -802,4 +815,209 @@ Proof.
   - cbn [h_entries]. rewrite first_cl_filter, filter_cl_del_te, filter_cl_del. now split.
   - destruct H as [H|H]; [discriminate|]. rewrite Hte, H. cbn [h_entries].
     rewrite first_cl_filter, filter_cl_del. now split.
+Qed.
+
+(* every header block: hdr_parse is block_entries followed by parse_entries *)
+Lemma hdr_parse_entries relaxed req proh block r :
+  hdr_parse relaxed req proh block = Some r ->
+  exists es, block_entries relaxed req block = Some es /\ parse_entries relaxed proh es = Some r.
+Proof. unfold hdr_parse. destruct (block_entries relaxed req block) as [es|]; [eauto| discriminate]. Qed.
+
+Theorem block_length_sound relaxed req proh block r :
+  hdr_parse relaxed req proh block = Some r -> content_length r <> (-1)%Z ->
+  exists es, block_entries relaxed req block = Some es /\
+    proh = false /\ has_id HTE es = false /\ h_conflicting r = false /\
+    uses (snd (check_fields relaxed cl_init (cl_values es))) (content_length r).
+Proof.
+  intros H Hn. destruct (hdr_parse_entries _ _ _ _ _ H) as (es & He & Hp).
+  exists es. split; [exact He|]. exact (header_length_sound _ _ _ _ Hp Hn).
+Qed.
+
+(* the full list statement is false for the code as it is: "1,<VT>,5" *)
+Theorem relaxed_all_occurrences_refuted :
+  exists vs v, uses (snd (check_fields true cl_init vs)) v /\
+    ~ (forall o, In o (concat (map occurrences vs)) -> is_token true o v).
+Proof.
+  exists [[49; 44; 11; 44; 53]], 1%Z. split.
+  - vm_compute. repeat split.
+  - intros H. assert (Hin : In [53] (concat (map occurrences [[49; 44; 11; 44; 53]]))).
+    { vm_compute. right. left. reflexivity. }
+    specialize (H _ Hin). apply cv_parse_token in H. vm_compute in H. discriminate.
+Qed.
+
+(* and the same through HttpHeader::parse on the block "Content-Length: 1,<VT>,5 CRLF CRLF" *)
+Definition vt_block : bytes :=
+  [67;111;110;116;101;110;116;45;76;101;110;103;116;104;58;32;49;44;11;44;53;13;10;13;10].
+Theorem block_vt_list_refuted :
+  exists r, hdr_parse true false false vt_block = Some r /\ content_length r = 1%Z /\
+    h_conflicting r = false /\
+    exists es, block_entries true false vt_block = Some es /\
+      In [53] (concat (map occurrences (cl_values es))) /\ ~ is_token true [53] 1.
+Proof.
+  destruct (hdr_parse true false false vt_block) as [r|] eqn:E; [|vm_compute in E; discriminate].
+  exists r. assert (Hc : content_length r = 1%Z /\ h_conflicting r = false).
+  { vm_compute in E. inversion E. vm_compute. now split. }
+  destruct Hc as [H1 H2]. repeat split; try assumption.
+  destruct (block_entries true false vt_block) as [es|] eqn:Eb; [|vm_compute in Eb; discriminate].
+  exists es. split; [reflexivity|]. vm_compute in Eb. inversion Eb. split.
+  - vm_compute. right. left. reflexivity.
+  - intros H. apply cv_parse_token in H. vm_compute in H. discriminate.
+Qed.
+
+Lemma tables_spec relaxed c :
+  cs_DIGIT c = c_isdigit c /\ cl_ws relaxed c = ows_before relaxed c /\ cl_delim relaxed c = ows_after relaxed c.
+Proof. exact (conj (digit_tbl c) (conj (ws_tbl relaxed c) (delim_tbl relaxed c))). Qed.
+
+(* ================= lists: the code's iteration vs. "split at commas, trim, ignore empty" ================= *)
+Definition piece_item (p : bytes) : list bytes :=
+  match snd (span is_lead p) with [] => [] | q => [q] end.
+Definition lead_items (ps : list bytes) : list bytes := concat (map piece_item ps).
+
+Lemma split_on_cons d l : exists p ps, split_on d l = p :: ps.
+Proof.
+  induction l as [|c r IH]; cbn [split_on]; [eauto|].
+  destruct (c =? d); [eauto|]. destruct IH as (p & ps & ->). eauto.
+Qed.
+
+Definition noquote (l : bytes) : Prop := forallb (fun c => negb (c =? 34)) l = true.
+
+Lemma split_items_noquote : forall l, noquote l ->
+  (forall acc, split_items Unq acc l =
+     match split_on 44 l with p :: ps => (rev acc ++ p) :: lead_items ps | [] => [] end) /\
+  split_items Lead [] l = lead_items (split_on 44 l).
+Proof.
+  unfold noquote. induction l as [|c r IH]; intros Hq.
+  - split; [intros acc|]; cbn [split_items split_on]; [now rewrite app_nil_r| reflexivity].
+  - cbn [forallb] in Hq. apply andb_prop in Hq as [Hc Hr]. destruct (IH Hr) as [IHu IHl].
+    destruct (split_on_cons 44 r) as (p & ps & Ep).
+    assert (E34 : (c =? 34) = false) by lia.
+    split.
+    + intros acc. cbn [split_items split_on]. rewrite E34. destruct (c =? 44) eqn:E44.
+      * rewrite IHl, app_nil_r. reflexivity.
+      * rewrite IHu, Ep. cbn [rev]. now rewrite <- app_assoc.
+    + cbn [split_items split_on]. destruct (is_lead c) eqn:El.
+      * rewrite IHl. destruct (c =? 44) eqn:E44.
+        -- unfold lead_items. cbn [map concat]. reflexivity.
+        -- rewrite Ep. unfold lead_items. cbn [map concat]. f_equal.
+           unfold piece_item. cbn [span]. rewrite El. destruct (span is_lead p). reflexivity.
+      * rewrite E34. assert (E44 : (c =? 44) = false) by (unfold is_lead in El; lia).
+        rewrite E44, IHu, Ep. cbn [rev app]. unfold lead_items. cbn [map concat]. f_equal.
+        unfold piece_item. cbn [span]. rewrite El. reflexivity.
+Qed.
+
+Lemma span_ext_on {A} (p q : A -> bool) l : (forall x, In x l -> p x = q x) -> span p l = span q l.
+Proof.
+  induction l as [|x l IH]; intros H; cbn [span]; [reflexivity|].
+  rewrite <- (H x (or_introl eq_refl)). destruct (p x); [|reflexivity].
+  rewrite IH; [reflexivity|]. intros y Hy. apply H. now right.
+Qed.
+
+Lemma span_snd_last {A} (p : A -> bool) a c : p c = false -> snd (span p (a ++ [c])) <> [].
+Proof.
+  intros Hc. induction a as [|x a IH]; cbn [app span].
+  - rewrite Hc. discriminate.
+  - destruct (p x); [|discriminate]. destruct (span p (a ++ [c])). exact IH.
+Qed.
+
+Lemma rtrim_nonempty c q : c_isspace c = false -> rtrim (c :: q) <> [].
+Proof.
+  intros Hc. unfold rtrim. cbn [rev]. intros H.
+  apply (span_snd_last c_isspace (rev q) c Hc).
+  destruct (snd (span c_isspace (rev q ++ [c]))) as [|y ys]; [reflexivity|].
+  cbn [rev] in H. destruct (rev ys); discriminate.
+Qed.
+
+Lemma blank_ltrim p : blank p = true <-> ltrim p = [].
+Proof.
+  unfold blank, ltrim. induction p as [|c p IH]; cbn [forallb span]; [tauto|].
+  destruct (c_isspace c); cbn [andb]; [|split; discriminate].
+  destruct (span c_isspace p). exact IH.
+Qed.
+
+(* characters of a list piece for which the code's leading-delimiter set and xisspace agree *)
+Definition plain (c : N) : bool := negb ((c =? 11) || (c =? 12) || (c =? 44)).
+
+Lemma lead_space_plain c : plain c = true -> is_lead c = c_isspace c.
+Proof. unfold plain, is_lead, c_isspace. lia. Qed.
+
+Lemma examined_piece p rest : forallb plain p = true ->
+  examined (piece_item p ++ rest) = (if blank p then [] else [trim p]) ++ examined rest.
+Proof.
+  intros Hp. unfold piece_item.
+  assert (E : snd (span is_lead p) = ltrim p).
+  { unfold ltrim. f_equal. apply span_ext_on. intros x Hx. apply lead_space_plain.
+    rewrite forallb_forall in Hp. now apply Hp. }
+  rewrite E. destruct (blank p) eqn:Eb.
+  - apply blank_ltrim in Eb. rewrite Eb. reflexivity.
+  - destruct (ltrim p) as [|c q] eqn:El.
+    + apply blank_ltrim in El. congruence.
+    + cbn [app examined]. unfold trim. rewrite El.
+      assert (Hc : c_isspace c = false).
+      { pose proof (span_stop c_isspace p) as Hs. unfold ltrim in El. rewrite El in Hs. exact Hs. }
+      destruct (rtrim (c :: q)) eqn:Er; [exfalso; exact (rtrim_nonempty c q Hc Er)|]. reflexivity.
+Qed.
+
+Lemma examined_lead_items ps : Forall (fun p => forallb plain p = true) ps ->
+  examined (lead_items ps) = map trim (filter (fun p => negb (blank p)) ps).
+Proof.
+  induction 1 as [|p ps Hp _ IH]; [reflexivity|].
+  unfold lead_items. cbn [map concat filter]. fold (lead_items ps).
+  rewrite (examined_piece p _ Hp), IH. destruct (blank p); reflexivity.
+Qed.
+
+Lemma split_on_pieces (P : N -> bool) d l : forallb P l = true ->
+  Forall (fun p => forallb (fun c => P c && negb (c =? d)) p = true) (split_on d l).
+Proof.
+  induction l as [|c r IH]; intros H; cbn [split_on].
+  - constructor; [reflexivity| constructor].
+  - cbn [forallb] in H. apply andb_prop in H as [Hc Hr]. specialize (IH Hr).
+    destruct (c =? d) eqn:E.
+    + constructor; [reflexivity| exact IH].
+    + destruct (split_on d r) as [|p ps]; [constructor; [cbn [forallb]; now rewrite Hc, E| constructor]|].
+      inversion IH as [|? ? Hp Hps]; subst. constructor; [|exact Hps].
+      cbn [forallb]. now rewrite Hc, E, Hp.
+Qed.
+
+(* the hypothesis of the partial theorem: what HttpHeader::parse guarantees (no NUL) plus the exclusion of
+   the characters behind finding C26-list-stops-at-vt-item and of quoted strings, in list-like fields only *)
+Definition clean (f : bytes) : Prop :=
+  forallb (fun c => negb (c =? 0)) f = true /\
+  (existsb (N.eqb 44) f = true -> forallb (fun c => negb ((c =? 11) || (c =? 12) || (c =? 34))) f = true).
+
+Lemma c_str_nonul f : forallb (fun c => negb (c =? 0)) f = true -> c_str f = f.
+Proof.
+  induction f as [|c f IH]; cbn [forallb c_str]; [reflexivity|]. intros H. apply andb_prop in H as [Hc Hf].
+  destruct (c =? 0); [discriminate|]. now rewrite (IH Hf).
+Qed.
+
+Lemma field_occ_clean f : clean f -> field_occ true f = map (cv_parse true) (occurrences f).
+Proof.
+  intros [Hn Hq]. unfold field_occ, occurrences, has_comma. rewrite (c_str_nonul f Hn).
+  destruct (existsb (N.eqb 44) f) eqn:Ec; [|reflexivity]. specialize (Hq eq_refl). f_equal.
+  assert (Hnq : noquote f) by (unfold noquote; revert Hq; apply forallb_imp; intros x; lia).
+  rewrite (proj2 (split_items_noquote f Hnq)). apply examined_lead_items.
+  assert (Hp : forallb (fun c => negb ((c =? 11) || (c =? 12))) f = true)
+    by (revert Hq; apply forallb_imp; intros x; lia).
+  pose proof (split_on_pieces _ 44 f Hp) as HF. revert HF. apply Forall_impl. intros p.
+  apply forallb_imp. intros x. unfold plain. lia.
+Qed.
+
+Theorem relaxed_lists_partial vs v :
+  (forall f, In f vs -> clean f) ->
+  (uses (snd (check_fields true cl_init vs)) v <->
+   concat (map occurrences vs) <> [] /\ forall o, In o (concat (map occurrences vs)) -> is_token true o v).
+Proof.
+  intros Hc. rewrite <- abs_uses, abs_check_fields. change (abs cl_init) with SNone. rewrite fold_none_spec.
+  assert (Hocc : concat (map (field_occ true) vs) = map (cv_parse true) (concat (map occurrences vs))).
+  { induction vs as [|f vs IH]; cbn [map concat]; [reflexivity|].
+    rewrite map_app, (field_occ_clean f (Hc f (or_introl eq_refl))). f_equal.
+    apply IH. intros g Hg. apply Hc. now right. }
+  rewrite Hocc. split.
+  - intros (Hne & Hall & _). split.
+    + intros E. rewrite E in Hne. now apply Hne.
+    + intros o Ho. apply cv_parse_token. apply Hall. now apply in_map.
+  - intros (Hne & Hall). split.
+    + destruct (concat (map occurrences vs)); [contradiction| discriminate].
+    + split; [|discriminate]. intros o Ho. apply in_map_iff in Ho as (it & <- & Hit).
+      apply cv_parse_token. now apply Hall.
 Qed.
